@@ -34,6 +34,10 @@ CLAIMS = {
 CLAIMS['C17'] = ('other', 'partial, Verus: the set address sorts its address slice in place (permutation) and sorted arrangements are unique => order independence; '
                  'from_solution_addrs, from_predicate_addrs, Program/Solution address impls and Predicate::encode delegation verified against spec functions over uninterpreted SHA-256/postcard; '
                  'predicate_encoded_size == documented size. Assumed (listed in evidence): Map/chain adapters feeding the hasher, encode_predicate layout, contract address slice function')
+CLAIMS['C14'] = ('other', 'bounded only, labelled bounded: Kani on the real compiled BytecodeMapped (mapping vs a reference stream parse generated from asm.yml; random access op(i) vs the parsed list) '
+                 'for all byte strings up to the stated lengths; execution equivalence rests on Vm::exec being verified generically over OpAccess')
+CLAIMS['C10'] = ('other', 'bounded only for the join (Kani on the real compute_effects through a cfg(kani) hook, concrete memory shapes, symbolic contents/gas/pcs/halts, memory-limit boundary) '
+                 'plus Verus contracts on step_op_compute / Vm::exec handling of compute results; the rayon fork in compute() is not covered')
 NA = {
     'C02': 'thread schedules: no contract on the real functions can quantify over interleavings (Kani has no threads; Verus would need a rewritten model of the rayon code)',
     'C19': 'cryptographic binding lives in FFI C (secp256k1-sys) outside both verifiers; the in-repo glue is covered under C17',
@@ -56,8 +60,8 @@ def main():
                        'level_note': NOTE + registry.PROPS[p].get('level_note_extra', ''), 'technique': registry.PROPS[p].get('technique', TECH)})
     na = [{'property_id': p, 'reason': NA.get(p, NOT_REACHED)} for p in ids if p not in claimed]
     m = {'version': 1, 'setup_cmd': './check setup',
-         'hooks': {'guard': 'cfg(kani)', 'enable': 'set only by cargo-kani; Verus needs no hooks', 'baseline_off_cmd': 'cd /repo && cargo test --workspace --no-fail-fast --offline',
-                   'source_commits': [], 'add_only': True},
+         'hooks': {'guard': 'cfg(kani)', 'enable': 'set only by cargo-kani (it passes --cfg kani); Verus needs no hooks', 'baseline_off_cmd': 'cd /repo && cargo test --workspace --no-fail-fast --offline',
+                   'source_commits': ['7d23ed0'], 'add_only': True},
          'engines': [{'name': 'contracts', 'path': '/verif/check', 'serves_properties': claimed,
                       'kind_free_text': 'Verus contracts woven onto functions extracted from /repo each run; Kani for complete loop-free and bounded checks'}],
          'checks': checks, 'not_applicable': na, 'notes': 'exit 2 = undecided (tool limit / lost anchor), never an alarm'}
